@@ -143,6 +143,26 @@ class Monitor:
             setattr(Discovery, name, sub)
             self.undo.append((Discovery, name, orig))
 
+        orig_all = Discovery.subscribe_all_agents
+
+        def sub_all(disc, cb=None, *a, **k):
+            if cb is not None:
+                agent = disc.own_agent
+                inner = cb
+
+                def wrapped(*ca, **ck):
+                    mon._enter(agent, "discovery_cb:subscribe_all_agents")
+                    try:
+                        return inner(*ca, **ck)
+                    finally:
+                        mon._exit(agent)
+
+                cb = wrapped
+            return orig_all(disc, cb, *a, **k)
+
+        Discovery.subscribe_all_agents = sub_all
+        self.undo.append((Discovery, "subscribe_all_agents", orig_all))
+
         for name in ("unsubscribe_agent", "unsubscribe_computation", "unsubscribe_replica"):
             orig = getattr(Discovery, name)
 
@@ -209,9 +229,19 @@ def solve_scenario(job, monitor=None):
                 dist_error = ("NotImplementedError", str(e)[:120])
                 dist = dm.distribute(cg, dcop.agents.values(), computation_memory=lambda n: 1,
                                      communication_load=lambda n, t: 1)
-        orch = run_local_thread_dcop(algo, cg, dist, dcop, INFINITY)
+        if job.get("replication"):
+            # resilient run: replication computations subscribe to all agent events (discovery callbacks on every agent)
+            import pydcop.replication.dist_ucs_hostingcosts as _ucs
+
+            choice_mod.install(_ucs)
+            orch = run_local_thread_dcop(algo, cg, dist, dcop, INFINITY, replication="dist_ucs_hostingcosts")
+        else:
+            orch = run_local_thread_dcop(algo, cg, dist, dcop, INFINITY)
         try:
             orch.deploy_computations()
+            if job.get("replication"):
+                orch.start_replication(job["replication"])
+                orch.wait_ready()
             orch.run(timeout=job.get("timeout", 10))
             status = orch.status
             metrics = orch.end_metrics()
